@@ -340,6 +340,8 @@ class DiscreteTimeMethod(EstimationMethod):
 
     def main_algorithm(self, probability_space, epsilon, num_threads):
         # Algorithm class is shared by inside-outside & outside-maximization methods
+        if self.mutation_rate is not None and not self.mutation_rate > 0:
+            raise ValueError("Mutation rate must be positive")
         if probability_space == LIN_GRID:
             liklhd = discrete.Likelihoods(
                 self.ts,
